@@ -47,7 +47,40 @@ def main():
         finally:
             sh(["git", "-C", "/repo", "checkout", "--", "."])
     json.dump(results, open(results_path, "w"), indent=1)
+    write_readme(results)
     return 0
+
+
+def write_readme(results):
+    """seeded/README.md: one row per confirmed breaking change, from meta.json and RESULTS.json"""
+    rows = []
+    for sid in sorted(d for d in os.listdir(SEEDED) if os.path.isdir(os.path.join(SEEDED, d))):
+        meta = json.load(open(os.path.join(SEEDED, sid, "meta.json")))
+        res = results.get(sid, {})
+        checks = res.get("checks", {})
+        caught_by = [p for p, v in checks.items() if v.get("exit") != 0]
+        missed_by = [p for p, v in checks.items() if v.get("exit") == 0]
+        files = ", ".join(meta.get("files_changed") or [])
+        summary = (meta.get("summary") or "").replace("|", "/").replace("\n", " ")
+        needs = (meta.get("needs") or "").replace("|", "/").replace("\n", " ")
+        rows.append("| %s | %s | %s | %s | %s | %s | %s |" % (
+            sid, meta["property"], files, summary[:400], needs[:300],
+            ", ".join(caught_by) or "-", ", ".join(missed_by) or "-"))
+    text = """# Seeded breaking changes
+
+Each directory holds a change to deib-polimi/noir made by a fresh sub-agent that saw only the
+text of one property and a scratch worktree (nothing from /verif): `patch.diff` (apply with
+`git -C /repo apply`), `demo.rs` (a test that fails with the change and passes without it) and
+`meta.json`. Every change compiles and passes the repository's own test suite (confirmed in the
+scratch worktree: 238 passed, 0 failed) and was confirmed to make the demo fail / pass.
+`tools/run_seeded.py` applies each to /repo, runs the quick check of the property (and of the
+neighbouring properties in `also_run`), undoes it, and rewrites this table and `RESULTS.json`.
+`strengthened.md` records what was changed in the checks after a miss.
+
+| id | property | files | change | needs | checks that report a VIOLATION | checks run that stay OK |
+|---|---|---|---|---|---|---|
+""" + "\n".join(rows) + "\n"
+    open(os.path.join(SEEDED, "README.md"), "w").write(text)
 
 
 if __name__ == "__main__":
